@@ -630,7 +630,7 @@ def run(ctx):
         "the same and on other shapes compared with the result of a fresh interpreter per operator, results and "
         "operands scribbled over between calls. "
         "non-trivial = encoder case with at least one non-zero hopping entry, or an edge/face query on a lattice with a face")
-    ctx.lib(["Compact/CompactCheck", "Compact/CompactProofs", "Compact/CompactBounded"])
+    ctx.lib(["Compact/CompactCheck", "Compact/CompactProofs", "Compact/CompactBounded", "Compact/CompactLoops"])
     ok_tr = ctx.translate("GenCompact", gen_compact.generate)
     if ok_tr:
         ctx.props()
